@@ -26,7 +26,8 @@ TECHNIQUE = "runtime monitoring: sequential cast reference model + aliasing scan
 ASSUMPTIONS = ["a rule without casts inside a casting schema is judged on the original document (as implemented and not contradicted by the statement)"]
 
 STR_NODES = ["true", "FALSE", "True", "3", " 4 ", "+5", "1_0", "3.0", "abc", "", "-7", "0", "false ", "1e3", "٣",
-             "inf", "-Infinity", "1e999", "nan", "0x10", "1 2"]
+             "inf", "-Infinity", "1e999", "nan", "0x10", "1 2",
+             "fal\u017fe", "FAL\u017fE", "\uff54\uff52\uff55\uff45", "tru\u0435", "\uff11\uff12", "\u00b2", "1\u0660", "TRUE\u200b", "\u200btrue", "true\n", "\tFalse"]
 CAST_DOC = {
     "t": "true", "f": "FALSE", "i": "3", "sp": " 4 ", "pl": "+5", "us": "1_0", "fl": "3.0", "x": "abc", "e": "",
     "n": 5, "none": None, "b": True,
